@@ -804,6 +804,21 @@ impl fmt::Debug for SystemHardware {
     }
 }
 
+#[cfg(all(folo_verif, target_os = "linux"))]
+impl SystemHardware {
+    /// Verification hook: hardware discovered by the real Linux platform code over a simulated
+    /// filesystem and simulated scheduler bindings.
+    #[must_use]
+    pub fn verif_linux(
+        fs: Arc<dyn crate::verif::SimFilesystem>,
+        bindings: Arc<dyn crate::verif::SimBindings>,
+    ) -> Self {
+        Self::from_platform(PlatformFacade::Target(
+            crate::pal::BuildTargetPlatform::verif_new(fs, bindings),
+        ))
+    }
+}
+
 #[cfg(test)]
 #[cfg_attr(coverage_nightly, coverage(off))]
 mod tests {
